@@ -16,9 +16,10 @@
 (* byte written to the file (page in bit 3 in 512-character mode).          *)
 (* AttributedChar/TextAttribute equality ignores the font page - EqCell,    *)
 (* EqAttr below - which is why a "both" run (mode 3) swallows cells that    *)
-(* differ only in the font page.  FixPages = TRUE models the proposed       *)
-(* repair (proposed_fixes/C06-1.md): pages are compared wherever cells or   *)
-(* attributes are compared for equality.                                    *)
+(* differ only in the font page.  The parameter fix = TRUE models the       *)
+(* proposed repair (proposed_fixes/C06-1.md): compress_backtrack also       *)
+(* compares the font pages where it starts and where it ends a "both" run;  *)
+(* count_length - a pure cost estimate - is left as it is.                  *)
 (***************************************************************************)
 EXTENDS XBin
 
@@ -33,7 +34,7 @@ EqCell(a, b, fix) == Ch(a) = Ch(b) /\ EqAttr(a, b, fix)
 StartMode(row, w, x, fix) ==
   IF x + 1 < w THEN
     LET cur == row[x + 1]  next == row[x + 2] IN
-    IF EqCell(cur, next, fix) THEN 3 ELSE IF Ch(cur) = Ch(next) THEN 1 ELSE IF EqAttr(cur, next, fix) THEN 2 ELSE 0
+    IF EqCell(cur, next, fix) THEN 3 ELSE IF Ch(cur) = Ch(next) THEN 1 ELSE IF EqAttr(cur, next, FALSE) THEN 2 ELSE 0
   ELSE 0
 
 \* ---------- count_length: bytes needed for columns x.. when the pending decision is er ("t" end the run, "f" continue,
@@ -70,17 +71,17 @@ CountLength(row, w, mode, rch, er, rc, x, fix) ==
   FoldLeft(LAMBDA cs, xx : CountStep(row, w, fix, cs, xx), [mode |-> mode, rch |-> rch, er |-> er, rc |-> rc, count |-> 0], Cols(x, w)).count
 
 \* end the run now iff that is strictly shorter than continuing
-Shorter(row, w, mode, rch, rc, x, fix) ==
-  CountLength(row, w, mode, rch, "t", rc, x, fix) < CountLength(row, w, mode, rch, "f", rc, x, fix)
+Shorter(row, w, mode, rch, rc, x) ==
+  CountLength(row, w, mode, rch, "t", rc, x, FALSE) < CountLength(row, w, mode, rch, "f", rc, x, FALSE)
 
 \* ---------- compress_backtrack, one row: a loop over the columns with state s = [mode, rc, rch, buf, out]
 EndRun(row, w, mode, rch, rc, x, cur, fix) ==
   IF rc >= RunBase THEN TRUE
-  ELSE CASE mode = 0 -> IF x + 2 < w /\ (Ch(cur) = Ch(row[x + 2]) \/ EqAttr(cur, row[x + 2], fix)) THEN Shorter(row, w, mode, rch, rc, x, fix) ELSE FALSE
+  ELSE CASE mode = 0 -> IF x + 2 < w /\ (Ch(cur) = Ch(row[x + 2]) \/ EqAttr(cur, row[x + 2], FALSE)) THEN Shorter(row, w, mode, rch, rc, x) ELSE FALSE
          [] mode = 1 -> IF Ch(cur) # Ch(rch) \/ Pg(cur) # Pg(rch) THEN TRUE
-                        ELSE IF x + 4 < w /\ EqAttr(cur, row[x + 2], fix) /\ EqAttr(cur, row[x + 3], fix) THEN Shorter(row, w, mode, rch, rc, x, fix) ELSE FALSE
+                        ELSE IF x + 4 < w /\ EqAttr(cur, row[x + 2], FALSE) /\ EqAttr(cur, row[x + 3], FALSE) THEN Shorter(row, w, mode, rch, rc, x) ELSE FALSE
          [] mode = 2 -> IF At(cur) # At(rch) \/ Pg(cur) # Pg(rch) THEN TRUE
-                        ELSE IF x + 3 < w /\ Ch(cur) = Ch(row[x + 2]) /\ Ch(cur) = Ch(row[x + 3]) THEN Shorter(row, w, mode, rch, rc, x, fix) ELSE FALSE
+                        ELSE IF x + 3 < w /\ Ch(cur) = Ch(row[x + 2]) /\ Ch(cur) = Ch(row[x + 3]) THEN Shorter(row, w, mode, rch, rc, x) ELSE FALSE
          [] OTHER -> ~EqCell(cur, rch, fix)
 
 Flush(out, mode, rc, buf) == out \o <<mode * RunBase + (rc - 1)>> \o buf
